@@ -296,19 +296,25 @@ theorem sortRights_asc (l : List RightRow) : (sortRights false l).Pairwise fun a
     (by intro a b c; simp only [decide_eq_true_eq]; omega) l
   exact this.imp (by intro a b h; simpa using h)
 
-theorem readUsers_perm (nf : Bool) (l : List UserRow) : (readUsers nf l).Perm l :=
-  (sortUsers_perm nf _).trans (sortBy_perm _ l)
+theorem byTie_perm {α : Type} (id : α → Nat) (t : TieOrder) (l : List α) : (byTie id t l).Perm l := by
+  cases t with
+  | uid rev => cases rev <;> exact sortBy_perm _ _
+  | seq s => exact sortBy_perm _ _
 
-theorem readRights_perm (nf : Bool) (l : List RightRow) : (readRights nf l).Perm l :=
-  (sortRights_perm nf _).trans (sortBy_perm _ l)
+theorem readUsers_perm (nf : Bool) (t : TieOrder) (l : List UserRow) : (readUsers nf t l).Perm l :=
+  (sortUsers_perm nf _).trans (byTie_perm _ t l)
 
-theorem readUsers_asc (l : List UserRow) : (readUsers false l).Pairwise fun a b => a.date ≤ b.date :=
-  sortUsers_asc _
+theorem readRights_perm (nf : Bool) (t : TieOrder) (l : List RightRow) : (readRights nf t l).Perm l :=
+  (sortRights_perm nf _).trans (byTie_perm _ t l)
 
-theorem readRights_asc (l : List RightRow) : (readRights false l).Pairwise fun a b => a.date ≤ b.date :=
-  sortRights_asc _
+theorem readUsers_asc (t : TieOrder) (l : List UserRow) :
+    (readUsers false t l).Pairwise fun a b => a.date ≤ b.date := sortUsers_asc _
 
-theorem groupsByUid_perm (rr : RoomRow) : (groupsByUid rr).groups.Perm rr.groups := sortBy_perm _ _
+theorem readRights_asc (t : TieOrder) (l : List RightRow) :
+    (readRights false t l).Pairwise fun a b => a.date ≤ b.date := sortRights_asc _
+
+theorem groupsByUid_perm (rev : Bool) (rr : RoomRow) : (groupsByUid rev rr).groups.Perm rr.groups :=
+  byTie_perm _ _ _
 
 theorem userWF_of_asc {l : List UserRow} (h : l.Pairwise fun a b => a.date ≤ b.date) :
     UserWF (l.map UserRow.toUser) := by
@@ -369,24 +375,27 @@ theorem parseRoom_of_wf {raw : Bool} {rr : RoomRow} (hn : (rr.groups.map (·.gid
   rw [addUsers_of_wf (by simpa using ha)]
   exact parseGroups_of_wf raw _ rr.groups (by simpa using hn) hg
 
-theorem sortGroup_asc_ordered (raw : Bool) (g : GroupRow) : GroupOrdered raw (sortGroup false g) :=
-  ⟨rightWF_of_asc (readRights_asc g.rights), userWF_of_asc (readUsers_asc g.users),
-   userWF_of_asc (readUsers_asc g.userAdmins)⟩
+theorem sortGroup_asc_ordered (raw : Bool) (t : TieOrder) (g : GroupRow) :
+    GroupOrdered raw (sortGroup false t g) :=
+  ⟨rightWF_of_asc (readRights_asc t g.rights), userWF_of_asc (readUsers_asc t g.users),
+   userWF_of_asc (readUsers_asc t g.userAdmins)⟩
 
-/-- **replay in ascending date order always succeeds** -/
-theorem parseRoom_sorted (raw : Bool) (rr : RoomRow) (hn : (rr.groups.map (·.gid)).Nodup) :
-    ∃ r, parseRoom raw (exportRoom Defects.none rr) = .ok r := by
+theorem readRoom_gids (nf : Bool) (t : TieOrder) (rr : RoomRow) :
+    (readRoom nf t rr).groups.map (·.gid) = rr.groups.map (·.gid) := by
+  simp only [readRoom, List.map_map]
+  apply List.map_congr_left
+  intro g _; rfl
+
+/-- **replay in ascending date order always succeeds** (whatever order the storage returns ties in) -/
+theorem parseRoom_sorted (raw : Bool) (t : TieOrder) (rr : RoomRow)
+    (hn : (rr.groups.map (·.gid)).Nodup) : ∃ r, parseRoom raw (readRoom false t rr) = .ok r := by
   apply parseRoom_of_wf
-  · have : (exportRoom Defects.none rr).groups.map (·.gid) = rr.groups.map (·.gid) := by
-      simp only [exportRoom, List.map_map]
-      apply List.map_congr_left
-      intro g _; rfl
-    rw [this]; exact hn
-  · exact userWF_of_asc (readUsers_asc rr.admins)
+  · rw [readRoom_gids]; exact hn
+  · exact userWF_of_asc (readUsers_asc t rr.admins)
   · intro g hg
-    simp only [exportRoom, List.mem_map] at hg
+    simp only [readRoom, List.mem_map] at hg
     obtain ⟨g0, _, rfl⟩ := hg
-    exact sortGroup_asc_ordered raw g0
+    exact sortGroup_asc_ordered raw t g0
 
 /-- in a list where entries of one key all carry the same date, any order is date-ordered -/
 theorem gwf_of_singleDate {α : Type} (key : α → Nat) (date : α → Int) {l : List α}
@@ -437,16 +446,17 @@ theorem SameRows.symm {x y : RoomRow} (h : SameRows x y) : SameRows y x :=
    fun g hg => by obtain ⟨k, hk, e, a, b, c⟩ := h.bwd g hg; exact ⟨k, hk, e.symm, a.symm, b.symm, c.symm⟩,
    fun g hg => by obtain ⟨k, hk, e, a, b, c⟩ := h.fwd g hg; exact ⟨k, hk, e.symm, a.symm, b.symm, c.symm⟩⟩
 
-theorem exportRoom_sameRows (df : Defects) (rr : RoomRow) : SameRows (exportRoom df rr) rr := by
-  refine ⟨readUsers_perm _ _, ?_, ?_⟩
+theorem readRoom_sameRows (nf : Bool) (t : TieOrder) (rr : RoomRow) : SameRows (readRoom nf t rr) rr := by
+  refine ⟨readUsers_perm _ _ _, ?_, ?_⟩
   · intro g hg
-    simp only [exportRoom, List.mem_map] at hg
+    simp only [readRoom, List.mem_map] at hg
     obtain ⟨g0, hg0, rfl⟩ := hg
-    exact ⟨g0, hg0, rfl, readUsers_perm _ _, readUsers_perm _ _, readRights_perm _ _⟩
+    exact ⟨g0, hg0, rfl, readUsers_perm _ _ _, readUsers_perm _ _ _, readRights_perm _ _ _⟩
   · intro h hh
-    refine ⟨sortGroup df.newestFirstReplay h, ?_, rfl, readUsers_perm _ _, readUsers_perm _ _, readRights_perm _ _⟩
-    simp only [exportRoom, List.mem_map]
+    refine ⟨sortGroup nf t h, ?_, rfl, readUsers_perm _ _ _, readUsers_perm _ _ _, readRights_perm _ _ _⟩
+    simp only [readRoom, List.mem_map]
     exact ⟨h, hh, rfl⟩
+
 
 /-- reordering the groups does not change the rows -/
 theorem sameRows_of_groups_perm {x y : RoomRow} (ha : x.admins = y.admins) (hg : x.groups.Perm y.groups) :
@@ -464,6 +474,10 @@ theorem SameRows.trans {x y z : RoomRow} (h1 : SameRows x y) (h2 : SameRows y z)
     obtain ⟨h, hh, e2, a2, b2, c2⟩ := h2.bwd k hk
     obtain ⟨g, hg, e1, a1, b1, c1⟩ := h1.bwd h hh
     exact ⟨g, hg, e2.trans e1, a1.trans a2, b1.trans b2, c1.trans c2⟩
+
+theorem exportRoom_sameRows (df : Defects) (rr : RoomRow) : SameRows (exportRoom df rr) rr :=
+  (sameRows_of_groups_perm (x := exportRoom df rr) (y := readRoom df.newestFirstReplay (.uid df.uidOrderReversed) rr)
+    rfl (groupsByUid_perm _ _)).trans (readRoom_sameRows _ _ rr)
 
 theorem UserFunc.perm {l₁ l₂ : List User} (hp : l₁.Perm l₂) (h : UserFunc l₁) : UserFunc l₂ :=
   fun u hu v hv => h u (hp.mem_iff.mpr hu) v (hp.mem_iff.mpr hv)
